@@ -248,7 +248,7 @@ impl Prop for C12 {
         ]
     }
     fn random_cases(tier: Tier) -> u64 {
-        tier.pick(8_000, 120_000)
+        tier.pick(8_000, 600_000)
     }
     fn strategy(tier: Tier) -> BoxedStrategy<Case> {
         let max_ops = tier.pick(15usize, 40);
